@@ -31,7 +31,7 @@ package ingress
 @*/
 
 /*@ func types/ingress.buildServicesFilter
-  props C19
+  props C19 C09
   theory ingressfilters
   requires (not (= {ing} vnil))
   ghost kind : (Array Int Int) := ((as const (Array Int Int)) 0)
@@ -74,7 +74,7 @@ package ingress
 @*/
 
 /*@ func types/ingress.ServicesFilter
-  props C19 C17
+  props C19 C17 C09
   theory ingressfilters
   requires [ingresses-valid] (forall ((j Int)) (=> (and (<= 0 j) (< j (slen {ingresses})))
         (and (not (= (select (sarr {ingresses}) j) vnil)) (not (= (obj-ns (select (sarr {ingresses}) j)) |str!|)))))
